@@ -2,6 +2,7 @@ SPECIFICATION Spec
 CONSTANTS MaxN = 4 DetSort = TRUE Mut_NoPlusOne = TRUE Mut_GroupFirst = FALSE
 INVARIANT OpEqualsDef
 INVARIANT FastEqualsDef
+INVARIANT CountEqualsDef
 INVARIANT InRange
 INVARIANT Monotone
 INVARIANT TieEqual
